@@ -160,6 +160,8 @@ def wrMat3 (io : DblIO D) (p : Nat) (m : List (Mat D)) : Stream := m.flatMap (wr
 def wrTab (t : Mat Nat) : Stream := t.flatMap (fun r => r.map printN)
 def wrTab3 (t : List (Mat Nat)) : Stream := t.flatMap wrTab
 
+/-- `read(is, Vector &)` -/
+def rdVec (io : DblIO D) (n : Nat) : Rd (List D) := rep (rdD io) n
 def rdMat (io : DblIO D) (rows cols : Nat) : Rd (Mat D) := rep (rep (rdD io) cols) rows
 def rdMat3 (io : DblIO D) (k rows cols : Nat) : Rd (List (Mat D)) := rep (rdMat io rows cols) k
 def rdTab (rows cols : Nat) : Rd (Mat Nat) := rep (rep rdN cols) rows
@@ -253,6 +255,8 @@ structure Prec where
   sparse : Nat
   /-- `os << vv.values.transpose()` in `operator<<(ostream&, const POMDP::Policy&)` -/
   pomdpPolicy : Nat
+  /-- `write(os, const Vector &)` -/
+  vector : Nat
   deriving Repr
 
 /-! ### MDP::Experience / SparseExperience -/
